@@ -144,7 +144,7 @@ class Gen:
     def emit(self, op):
         self.ops.append(op)
         t = op.split()[0]
-        if t in ('get', 'getrep'):
+        if t in ('get', 'getrep', 'getview'):
             lex, w = op_word(op)
             d = self.glob if (not w or w in self.kset) else self.seen[lex]
             if w not in d:
@@ -206,6 +206,21 @@ class Gen:
             for w in reversed(grp):
                 self.emit('get L%d %s' % (lex, hx(w)))
             self.reread_some(3)
+        # a word and its own 16-byte PREFIX with one hash code (lengths differ, codes do not), the prefix handed over as a view into the
+        # characters of the word's node (and the word's tail the same way); then prefixes / suffixes of earlier results in general
+        for k in range(max(4, n // 6)):
+            p16 = bytes(rng.choice(b'abcdefghijklmnopqrstuvwxyz_') for _ in range(16))
+            wlong = C.equal_hash_extension(p16)
+            lex = rng.randrange(2)
+            self.emit('get L%d %s' % (lex, hx(wlong)))
+            j = self.seen[lex].get(wlong)
+            if j is None: continue
+            self.emit('getview L%d %s n%d 0' % (lex, hx(p16), j))
+            self.emit('get L%d %s' % (lex, hx(p16)))
+            self.emit('getview L%d %s n%d 8' % (lex, hx(wlong[8:]), j))
+            self.emit('get L%d %s' % (lex, hx(wlong)))
+            self.emit('getview L%d %s n%d 0' % (1 - lex, hx(wlong[:9]), j))
+            self.reread_some(2)
         self.done()
 
     # -- the families -----------------------------------------------------------------------------------------
@@ -490,7 +505,7 @@ def oracle(ops, impl, kset, stats=None):
         if kind == 'arena':
             names, by_word, glob, prev = [], [dict(), dict()], dict(), {}
             continue
-        if kind in ('get', 'getrep', 'inject'):
+        if kind in ('get', 'getrep', 'inject', 'getview'):
             lex, w = op_word(op)
             ln = lines[0][0]
             if ln.startswith('!'):
@@ -588,6 +603,8 @@ def run_impl(probe, ops):
 
 
 def run_model(ops):
+    # (a word handed over as a view into an earlier String is, to the model, the word)
+    ops = [('get ' + ' '.join(o.split()[1:3])) if o.startswith('getview ') else o for o in ops]
     rc, out, err = C.run_model('c03', '\n'.join(ops) + '\n')
     if rc != 0:
         raise C.BuildError('model driver failed: ' + err[-2000:])
